@@ -31,13 +31,16 @@ def _vacuity(path):
             for x in e["names"]:
                 if x["ok"] and sum(len(l) + 1 for l in x["item"][0]) + 1 == 255:
                     seen.add("name255")
+            for x in e["edns"]:
+                if x["ok"] and x["v"][1] != x["v"][2]:
+                    seen.add("edns:ext!=version")
             for k in ("names", "qs", "rs"):
                 for x in e[k]:
                     seen.add("%s:%s" % (k, "und" if x["und"] else ("ok" if x["ok"] else "err")))
             for it in e["msg"]["items"]:
                 seen.add("tag:%d" % it[0])
     need = {"end:done", "end:err", "end:und", "names:ok", "names:err", "qs:ok", "qs:err",
-            "rs:ok", "rs:err", "rs:und", "name255", "tag:0", "tag:1", "tag:2", "tag:3", "tag:4"}
+            "rs:ok", "rs:err", "rs:und", "name255", "edns:ext!=version", "tag:0", "tag:1", "tag:2", "tag:3", "tag:4"}
     if need - seen:
         raise vlib.ToolError("vacuity: codec cases never reach %s" % sorted(need - seen))
 
